@@ -517,6 +517,55 @@ class _Fatal(Exception):
     pass
 
 
+# --------------------------------------------------------------------------- (b2) citations of errors raised by the LEXER, several imports
+LEX_ERRORS = [("invalid-character", "const A = 1 @ 2"), ("bad-escape", 'const S = "a\\qb"'), ("width-out-of-range", "type W = uint65"), ("undefined-type", "message Z {\n    Missing m = 1\n}")]
+
+
+def work_lexcite(job: Tuple[str, str, str]) -> Dict[str, Any]:
+    """value-independent, real lexer + parser natively (my token sources cannot see this: they wire the file-name stacks
+    themselves): an error in the file named on the command line, in the first and in the SECOND imported file cites that
+    file and the line on which the offending text stands"""
+    from ..compile import load_plain_compiler
+
+    kind, bad, where = job
+    res = _res(f"lexcite:{kind}:{where}")
+    load_plain_compiler()
+    from bitproto.errors import LexerError, ParserError
+    from bitproto.parser import parse
+
+    pad = "\n".join(f"const FILLER_{i} = {i}" for i in range(9))
+    good = lambda name: f"proto {name}\n// a comment\n{pad}\nenum K_{name} : uint3 {{\n    K_{name.upper()}_0 = 0\n}}\n"
+    files = {"first.bitproto": good("first"), "second.bitproto": good("second"), "main.bitproto": 'proto main\nimport "first.bitproto"\nimport "second.bitproto"\nmessage M {\n    first.K_first a = 1\n    second.K_second b = 2\n}\n'}
+    target = {"root": "main.bitproto", "first": "first.bitproto", "second": "second.bitproto"}[where]
+    lines = files[target].rstrip("\n").split("\n")
+    lines.insert(min(len(lines), 5), bad)  # after the proto line and a few more: line 6..
+    files[target] = "\n".join(lines) + "\n"
+    bad_first_line = 6
+    want_line = bad_first_line + (1 if kind == "undefined-type" else 0)
+    with Scratch() as sc:
+        for fn, text in files.items():
+            open(sc.path(fn), "w").write(text)
+        res["obligations"] += 1
+        try:
+            with contextlib.redirect_stderr(io.StringIO()):
+                parse(sc.path("main.bitproto"))
+            res["violations"].append({"what": f"{res['case']}: the invalid schema is accepted", "payload": {"kind": "lexcite", "files": files}, "confirmed": True, "info": {"kind": "cite", "key": "lexcite"}})
+        except (LexerError, ParserError) as e:
+            msg = str(e)
+            m = re.search(r"(\S*?)([\w.]+\.bitproto)?:?L(\d+)", msg)
+            cited_file = m.group(2) if m else None
+            cited_line = int(m.group(3)) if m else None
+            plain = re.sub(chr(27) + r"\[[0-9;]*m", "", msg).strip()[:160]
+            if cited_file != target or cited_line != want_line:
+                res["violations"].append({"what": f"{res['case']}: the error for {bad.splitlines()[-1].strip()!r} on line {want_line} of {target} cites {cited_file}:L{cited_line} ({plain})",
+                                          "payload": {"kind": "lexcite", "files": files, "target": target, "line": want_line}, "confirmed": True, "info": {"kind": "cite", "key": "lexcite"}})
+            elif len(res["samples"]) < 1:
+                res["samples"].append({"case": res["case"], "cites": f"{cited_file}:L{cited_line}"})
+        except Exception as e:
+            res["inconclusive"].append(f"{res['case']}: {type(e).__name__}: {e} (C09's matter)")
+    return res
+
+
 def work_exit(job: Tuple[bool, bool]) -> Dict[str, Any]:
     from ..zc import zc
 
@@ -696,7 +745,8 @@ def main() -> int:
     from . import c08
 
     parts = [("symbolic-layout", work_layout, lay_jobs), ("cited-lines", work_cited, cited), ("check-only-exit", work_exit, exits), ("lint-is-advisory", work_advisory, ADV),
-             ("parser-error-citations", c08.work, c08.catalogue())]  # every ParserError of the C08 templates cites the offending file and line, for all hole values
+             ("parser-error-citations", c08.work, c08.catalogue()),
+             ("lexer-error-citations", work_lexcite, [(k, b, w) for k, b in LEX_ERRORS for w in ("root", "first", "second")])]  # every ParserError of the C08 templates cites the offending file and line, for all hole values
     meta = {
         "functions_encoded": FILES,
         "bounds": "(a) 4 scenarios covering every definition kind (option, alias, typedef, const, enum, enum field, message, message field, nested enum/message) and references to types and constants at depth <= 2, each multi-line and on one physical line, starting on line 1 or later; line numbers, line-start offsets, columns and enum values symbolic (unbounded); runs of blank lines abstracted by one NEWLINE token; (b) 2 schemas x enumerated layouts (leading blank/comment lines, gaps, semicolons, imported) through the real lexer; (c) check-only exit logic for every warning count >= 0",
